@@ -774,3 +774,32 @@ def folded_conds(cfg, func, atom_eval, limit=4000, subst=None):
                 continue
         stack += [(m, env) for l, m in n.succ if l != "exc"]
     return out
+
+
+def absence_tolerated(func, call):
+    """is the call the subject of a `try: ... except ValueError: <no raise>`?  (`list.remove(x)` of an absent x
+    raises ValueError: catching exactly that is the same as testing membership first, in one scan instead of two)"""
+    found = False
+
+    def visit(stmts):
+        nonlocal found
+        for st in stmts:
+            if isinstance(st, ast.Try):
+                inside = any(call is x for b in st.body for x in ast.walk(b))
+                if inside:
+                    for h in st.handlers:
+                        names = []
+                        if isinstance(h.type, ast.Name):
+                            names = [h.type.id]
+                        elif isinstance(h.type, ast.Tuple):
+                            names = [e.id for e in h.type.elts if isinstance(e, ast.Name)]
+                        if "ValueError" in names and not any(isinstance(x, ast.Raise) for b in h.body for x in ast.walk(b)):
+                            found = True
+            for fld in ("body", "orelse", "finalbody"):
+                b = getattr(st, fld, None)
+                if isinstance(b, list) and b and isinstance(b[0], ast.stmt):
+                    visit(b)
+            for h in getattr(st, "handlers", []) or []:
+                visit(h.body)
+    visit(func.node.body)
+    return found
